@@ -335,71 +335,6 @@ s2s!(c06_kernel_s2s_ownskip, 4);
 s2s!(c06_kernel_s2s_ownnotar, 2);
 s2s!(c06_kernel_s2s_sfvote, 6, cov_never);
 
-/// Safe-to-skip, light version: who holds what is CONCRETE (the node itself, validator 2, voted
-/// notar(A); validator 1 voted notar(B); validator 0 votes now), stakes are symbolic, both
-/// blocks already signalled safe-to-notar and every certificate present, so that only the
-/// safe-to-skip evaluation of the arriving vote remains.  kind: 2 = skip vote, 3 = skip-fallback
-/// vote (its stake is not "skip" stake: it must never signal).
-fn s2s_light_body(kind: u8, cov: fn(u8, bool)) {
-    let own = 2usize;
-    let stakes: [u64; N] = [vs::any_u16() as u64, vs::any_u16() as u64, vs::any_u16() as u64];
-    let mut held: [Held; N] = [NOTHING, NOTHING, NOTHING];
-    held[1].notar = 2;
-    held[2].notar = 1;
-    let parent: [u8; 3] = [0, 0, 0];
-    let t0 = Totals::of(&held, &stakes);
-    vs::assume(t0.total > 0);
-    let c0 = conds(&held, &stakes, own, &parent);
-    let fx = fixture(&stakes, own);
-    let mut st = SlotState::new(Slot::new(SLOT), fx.epoch.clone());
-    install(&mut st, &fx, own, &held[own]);
-    install_totals(&mut st, &t0);
-    let vals = fx.epoch.epoch_info().validators();
-    let mut k = 0u8;
-    while k < 5 {
-        st.add_cert(crate::consensus::cert::kani_certstub::opaque(k, Slot::new(SLOT), block_hash(1), vals, &fx.sks[1]));
-        k += 1;
-    }
-    st.sent_safe_to_notar.insert(block_hash(1));
-    st.sent_safe_to_notar.insert(block_hash(2));
-    st.sent_safe_to_skip = c0.s2s;
-    if kind == 3 {
-        held[0].sf = true;
-    } else {
-        held[0].skip = true;
-    }
-    let (_c, events, _r) = st.add_vote(mk_vote(&fx, 0, kind, 1), Stake::new(stakes[0]));
-    let c1 = conds(&held, &stakes, own, &parent);
-    let mut n_s2s = 0u8;
-    for e in events.iter() {
-        match e {
-            PoolEvent::SafeToSkip(s) => {
-                vcheck!(*s == Slot::new(SLOT), "safe-to-skip for the wrong slot");
-                n_s2s += 1;
-            }
-            _ => vcheck!(false, "unexpected event"),
-        }
-    }
-    vcheck!(n_s2s == (c1.s2s && !c0.s2s) as u8, "safe-to-skip not signalled exactly when its condition became true (missing, early, or repeated)");
-    vcheck!(st.sent_safe_to_skip == c1.s2s, "safe-to-skip bookkeeping differs from the condition");
-    cov(n_s2s, c0.s2s);
-    std::mem::forget(st);
-    std::mem::forget(fx);
-    std::mem::forget(events);
-}
-macro_rules! s2sl {
-    ($name:ident, $k:literal, $cov:ident) => {
-        #[cfg_attr(kani, kani::proof)]
-        #[cfg_attr(kani, kani::stub(crate::crypto::aggsig::SecretKey::sign, crate::consensus::kani_fix::sign_stub))]
-        #[cfg_attr(kani, kani::unwind(6))]
-        #[cfg_attr(verif_replay, test)]
-        fn $name() {
-            s2s_light_body($k, $cov)
-        }
-    };
-}
-s2sl!(c06_s2s_light_skip, 2, cov_signal);
-s2sl!(c06_s2s_light_sfallback, 3, cov_never);
 
 macro_rules! h {
     ($name:ident, $t:literal) => {
